@@ -527,6 +527,8 @@ func generate(r *rng.R, mode string, hist int, s *sut) History {
 			add(Op{Kind: "appnotify", Ch: 1, Tok: "s1", Reads: []RV{{Node: slow.ID, Attr: 13}}})
 			add(Op{Kind: "closesession", Ch: 0, Tok: "s0", Chain: true})
 			add(Op{Kind: "read", Ch: r.Pick(0, 1), Tok: "s0", Reads: []RV{{Node: h.Nodes[0].ID, Attr: 13}}})
+			add(Op{Kind: "svc", Ch: 0, Tok: "s0", Svc: "call"})
+			add(Op{Kind: "apprelease", Ch: 1, Tok: "s1"})
 			add(Op{Kind: "write", Ch: 0, Tok: "s0", Writes: []WV{{Node: h.Nodes[0].ID, Attr: 13, Val: v}}})
 			add(Op{Kind: "read", Ch: 1, Tok: "s1", Reads: []RV{{Node: h.Nodes[0].ID, Attr: 13}}})
 			return h
